@@ -37,7 +37,7 @@ func init() {
 		MaxSteps:     200000,
 		YieldFiles:   []string{"ss2022/saltpool.go", "ss2022/tcp.go"},
 		QuickRuns:    24000,
-		ThoroughSecs: 600,
+		ThoroughSecs: 400,
 		Rule: "one run = one server configuration (cipher, single/multi-user, segmented-header allowance) and one generated history of up to 40 operations " +
 			"(advance clock, advance to a boundary of an earlier acceptance, fresh request with client skew, replay of an earlier request, junk / wrong key / bad type / stale, " +
 			"same-salt junk before a fresh request, k=2..4 concurrent presentations) under one seeded schedule with statement-level pre-emption inside saltpool.go and tcp.go; " +
